@@ -26,8 +26,6 @@ CLAIM = {
 KF_NOTE = {
     "KF-C03-negzero-omitempty": "negzero-omitempty",
     "KF-C03-map-key-kind": "boolkey/floatkey",
-    "KF-C03-iface-direct-nil": "iface-direct-nil",
-    "KF-C03-pv-sticky": "ptrrecv-nonaddr",
     "KF-C03-depth-limit": "deep",
     "KF-C03-quoted-string-escape": "quoted-string-special",
     "KF-C03-eager-type-check": "badkey/badomit",
@@ -38,12 +36,8 @@ def classify(feats, backend, impl_r, std_o):
     """narrow input classifier of the recorded findings; None = not a known finding"""
     if "negzero-omitempty" in feats:
         return "KF-C03-negzero-omitempty"
-    if "iface-direct-nil" in feats:
-        return "KF-C03-iface-direct-nil"
     if ("boolkey" in feats or "floatkey" in feats) and std_o[:2] == ["err", "unsupported"]:
         return "KF-C03-map-key-kind"
-    if "ptrrecv-nonaddr" in feats:
-        return "KF-C03-pv-sticky"
     if "deep" in feats and "cyclic" not in feats and impl_r[:2] == ["err", "too_deep"] and std_o[0] == "ok":
         return "KF-C03-depth-limit"
     if "quoted-string-special" in feats:
